@@ -1,9 +1,10 @@
 #!/bin/sh
 # usage: seed_eval.sh <patch.diff> <prop> [<prop>...]   -- apply to /repo, run quick checks, always undo
 patch="$1"; shift
-git -C /repo apply "$patch" || { echo "patch does not apply"; exit 9; }
+rm -rf /tmp/ev_backup_$$; cp -r /verif/evidence /tmp/ev_backup_$$
+git -C /repo apply "$patch" || { echo "patch does not apply"; rm -rf /tmp/ev_backup_$$; exit 9; }
 for p in "$@"; do
   out=$(cd /verif && ./check "$p" quick 2>&1); code=$?
   echo "== $p exit=$code"; echo "$out" | grep -E "VIOLATION|UNDECIDED|KNOWN|CRASH| quick:" | cut -c1-300 | head -8
 done
-git -C /repo checkout -- . ; git -C /repo status --short | head -3
+git -C /repo checkout -- . ; rm -rf /verif/evidence; mv /tmp/ev_backup_$$ /verif/evidence; git -C /repo status --short | head -3
